@@ -151,6 +151,10 @@ type acctEval struct {
 	pred *ssa.BasicBlock // predecessor on the current path (for phis)
 	phi  map[*ssa.Phi]string
 	phiA map[*ssa.Phi]aff
+	// while a straight-line callee is interpreted inline: its parameters stand for the caller's arguments
+	paramSym map[*ssa.Parameter]string
+	paramAff map[*ssa.Parameter]aff
+	inlineDepth int
 }
 
 func fieldKeyOfAddr(v ssa.Value) (string, ssa.Value) {
@@ -219,7 +223,12 @@ func (e *acctEval) sym(v ssa.Value) string {
 		return "(" + a.String() + ")"
 	}
 	switch x := v.(type) {
-	case *ssa.Parameter, *ssa.FreeVar:
+	case *ssa.Parameter:
+		if s, ok := e.paramSym[x]; ok {
+			return s
+		}
+		return v.Name()
+	case *ssa.FreeVar:
 		return v.Name()
 	case *ssa.Const:
 		if x.Value == nil {
@@ -307,6 +316,15 @@ func (e *acctEval) val(v ssa.Value) aff {
 		return a
 	}
 	switch x := v.(type) {
+	case *ssa.Parameter:
+		if a, ok := e.paramAff[x]; ok {
+			return a
+		}
+	case *ssa.Call:
+		// len(x[l:h]) = (h | len(x)) - l ; len(x) is named by what x is
+		if calleeKey(x) == "builtin.len" && len(x.Call.Args) == 1 {
+			return e.lenOf(x.Call.Args[0], 0)
+		}
 	case *ssa.Const:
 		if k, ok := constInt(x); ok {
 			return affConst(k)
@@ -358,6 +376,32 @@ func (e *acctEval) val(v ssa.Value) aff {
 		}
 	}
 	return affAtom(e.sym(v))
+}
+
+func (e *acctEval) lenOf(v ssa.Value, d int) aff {
+	v = strip2(v)
+	if sl, ok := v.(*ssa.Slice); ok && d < 6 {
+		var hi aff
+		if sl.High != nil {
+			hi = e.val(sl.High)
+		} else {
+			hi = e.lenOf(sl.X, d+1)
+		}
+		if sl.Low != nil {
+			return hi.add(e.val(sl.Low), -1)
+		}
+		return hi
+	}
+	// address of an array: its length is a constant
+	if p, ok := v.Type().Underlying().(*types.Pointer); ok {
+		if arr, ok := p.Elem().Underlying().(*types.Array); ok {
+			return affConst(arr.Len())
+		}
+	}
+	if arr, ok := v.Type().Underlying().(*types.Array); ok {
+		return affConst(arr.Len())
+	}
+	return affAtom("len(" + e.sym(v) + ")")
 }
 
 func (e *acctEval) elemVal(l *ssa.Lookup) aff {
@@ -414,6 +458,31 @@ func (e *acctEval) step(in ssa.Instruction) {
 			}
 		}
 		return
+	case *ssa.Slice:
+		// the bounds are fixed when the slice is made
+		st.regS[x] = e.sym(x)
+		return
+	case *ssa.Call:
+		if calleeKey(x) == "builtin.len" && len(x.Call.Args) == 1 {
+			st.regA[x] = e.lenOf(x.Call.Args[0], 0)
+			return
+		}
+		// a straight-line module helper (one block, no calls into further helpers of its own kind) is interpreted inline
+		if callee := x.Call.StaticCallee(); callee != nil && e.inlineDepth < 2 && callee.Pkg != nil && strings.HasPrefix(callee.Pkg.Pkg.Path()+"/", Mod) && straightLine(callee) {
+			ie := &acctEval{spec: e.spec, st: st, phi: map[*ssa.Phi]string{}, phiA: map[*ssa.Phi]aff{}, paramSym: map[*ssa.Parameter]string{}, paramAff: map[*ssa.Parameter]aff{}, inlineDepth: e.inlineDepth + 1}
+			for i, p := range callee.Params {
+				if i < len(x.Call.Args) {
+					if isIntType(p.Type()) {
+						ie.paramAff[p] = e.val(x.Call.Args[i])
+					}
+					ie.paramSym[p] = e.sym(x.Call.Args[i])
+				}
+			}
+			for _, ci := range callee.Blocks[0].Instrs {
+				ie.step(ci)
+			}
+			return
+		}
 	}
 	switch x := in.(type) {
 	case *ssa.Phi:
@@ -799,4 +868,19 @@ func (e *acctEval) loadPhis(f *ssa.Function) {
 			}
 		}
 	}
+}
+
+// straightLine: a function whose body is one basic block (plus the synthetic recover block).
+func straightLine(f *ssa.Function) bool {
+	if f.Blocks == nil {
+		return false
+	}
+	n := 0
+	for _, b := range f.Blocks {
+		if b.Comment == "recover" {
+			continue
+		}
+		n++
+	}
+	return n == 1 && len(f.Blocks[0].Instrs) < 40
 }
